@@ -95,3 +95,29 @@ example : ∃ (m : Machine 1 1 1 ℝ) (sts : List (GStat 1 1 ℝ)) (floor : ℝ)
   intro st hst c
   simp only [List.mem_cons, List.not_mem_nil, or_false] at hst
   rcases hst with rfl | rfl <;> norm_num
+
+/-- statistics that sit exactly at the UBM means (`F_c = N_c m_c` for every component, whatever the
+counts) carry no evidence about the latent variable: the i-vector is the prior mean, zero. The
+zero-frame case is the instance `N = 0, F = 0`. -/
+theorem C10_centred_stats_zero (m : Machine C D R ℝ) (st : GStat C D ℝ)
+    (hf : ∀ c d, st.f c d = st.n c * m.ubmMeans c d) : project m st = fun _ => 0 := by
+  have hr : rhs m st = fun _ => 0 := by funext t; simp [rhs, hf, sumFin_eq]
+  funext a
+  simp [project, hr, FA.mulVec, sumFin_eq]
+
+/-- for fixed counts the i-vector is a linear function of the centred first-order statistics
+`F_c − N_c m_c`: the precision depends on the counts only, the right-hand side is linear -/
+theorem C10_project_linear_in_centred_f (m : Machine C D R ℝ) (st st₁ st₂ : GStat C D ℝ) (a b : ℝ)
+    (hn₁ : st₁.n = st.n) (hn₂ : st₂.n = st.n)
+    (hf : ∀ c d, st.f c d - st.n c * m.ubmMeans c d
+        = a * (st₁.f c d - st₁.n c * m.ubmMeans c d) + b * (st₂.f c d - st₂.n c * m.ubmMeans c d)) :
+    project m st = fun t => a * project m st₁ t + b * project m st₂ t := by
+  have hr : ∀ u, rhs m st u = a * rhs m st₁ u + b * rhs m st₂ u := by
+    intro u
+    simp only [rhs, sumFin_eq, hf, Finset.mul_sum, ← Finset.sum_add_distrib]
+    refine Finset.sum_congr rfl fun c _ => Finset.sum_congr rfl fun d _ => ?_
+    ring
+  funext t
+  simp only [project, FA.mulVec, sumFin_eq, hn₁, hn₂, hr, Finset.mul_sum, ← Finset.sum_add_distrib]
+  refine Finset.sum_congr rfl fun u _ => ?_
+  ring
